@@ -56,6 +56,9 @@ def shards(tier, seed):
     out = [{"id": n, "fmt": n, "n": 120 if tier == "quick" else 5000, "small": tier == "quick"} for n, f in D.FORMATS.items() if f.builder]
     out.append({"id": "designators", "fmt": None, "n": 60 if tier == "quick" else 3000, "small": tier == "quick"})
     out.append({"id": "transportids", "fmt": None, "n": 60 if tier == "quick" else 3000, "small": tier == "quick"})
+    # ... and in an interpreter whose locale is not UTF-8 (names are UTF-8 on the wire wherever the program runs)
+    out.append({"id": "transportids@C-locale", "fmt": None, "n": 60 if tier == "quick" else 1000, "small": tier == "quick",
+                "env": {"LC_ALL": "C", "LANG": "C", "PYTHONCOERCECLOCALE": "0", "PYTHONUTF8": "0"}})
     return out
 
 
@@ -328,7 +331,15 @@ def run(shard, ctx):
     rng = ctx.rng()
     if shard["id"] == "designators":
         return run_designators(shard, ctx, rng)
-    if shard["id"] == "transportids":
+    if shard["id"].split("@")[0] == "transportids":
+        if shard.get("env"):
+            import sys as _sys
+
+            ctx.add("filesystem_encodings", _sys.getfilesystemencoding())
+            if _sys.getfilesystemencoding().lower().replace("-", "") == "utf8":
+                ctx.inconclusive_because("shard %s was to run in a non-UTF-8 locale, the interpreter uses %s" % (shard["id"], _sys.getfilesystemencoding()))
+                return
+            ctx.count("shards_run_in_c_locale")
         return run_tids(shard, ctx, rng)
     f = D.FORMATS[shard["fmt"]]
     # minimal dictionaries (optional lists left out): whatever the builder makes of them, it makes it every time
@@ -548,4 +559,4 @@ def finalize(merged, tier):
 
 def replay(rec, ctx):
     sid = rec.get("shard")
-    run({"id": sid, "fmt": sid if sid not in ("designators", "transportids") else None, "n": 40, "small": True}, ctx)
+    run({"id": sid, "fmt": sid if sid.split("@")[0] not in ("designators", "transportids") else None, "n": 40, "small": True}, ctx)
